@@ -168,6 +168,9 @@ def jobs(tier):
         for k in range(nseg):
             out.append(dict(func="upload", params=dict(n=n, crc=1, sized=1, how="buffered", fault=["lose", k]),
                             weight=n * 3))
+            # a lost segment is repaired by the retransmission protocol also when no CRC protects the transfer
+            out.append(dict(func="upload", params=dict(n=n, crc=0, sized=1, how="buffered", fault=["lose", k]),
+                            weight=n * 3))
         out.append(dict(func="upload", params=dict(n=n, crc=1, sized=1, how="buffered", fault=["crc"]), weight=n))
         out.append(dict(func="upload", params=dict(n=n, crc=1, sized=1, how="buffered", fault=["end"]), weight=n))
         # the same faults when the server does not indicate the size
@@ -195,7 +198,7 @@ META = dict(
                       "modes; faults with CRC: every lost segment for 22 and 50 bytes, wrong CRC, malformed end frame; "
                       "bit flips for 7 and 14 bytes; buffered stream read in pieces (6 buffer/piece combinations incl. 1024/1023)",
                 thorough="every length 1..64, 888..890, 896, 1000, 1778, 1779; losses for 14..100 bytes; bit flips up to 21 bytes; 58 buffer/piece combinations"),
-    outside_bounds=["faults without CRC negotiated (the statement does not promise detection)", "more than one fault",
+    outside_bounds=["corruption (bit flips, wrong CRC) without CRC negotiated (the statement does not promise detection; lost segments are covered without CRC as well)", "more than one fault",
                     "bit flips in values longer than 21 bytes (unsat proofs time out)", "loss of client->server frames"],
     assumptions=["the server restarts sequence numbers at 1 after every acknowledge, as CiA 301 prescribes"],
     stubs=["struct", "binascii.crc_hqx (z3 model)", "queue", "time", "io model (BufferedWriter/BufferedReader after CPython bufferedio.c, views into the recycled buffer)", "logging"],
